@@ -253,3 +253,14 @@ var StdLayouts = []geom.Layout{geom.XY, geom.XYZ, geom.XYM, geom.XYZM}
 
 // AllLayouts adds layouts beyond XYZM.
 var AllLayouts = []geom.Layout{geom.XY, geom.XYZ, geom.XYM, geom.XYZM, geom.Layout(5), geom.Layout(6), geom.Layout(7), geom.Layout(8)}
+
+// wideStrides are layouts far beyond XYZM: around powers of two and odd sizes.
+var wideStrides = []int{9, 10, 12, 15, 16, 17, 24, 31, 32, 33, 48, 64, 65, 100}
+
+// PickLayout draws from list, and one time in twelve a layout of 9..100 dimensions instead.
+func PickLayout(r *fw.Rand, list []geom.Layout) geom.Layout {
+	if r.Chance(1, 12) {
+		return geom.Layout(wideStrides[r.Intn(len(wideStrides))])
+	}
+	return list[r.Intn(len(list))]
+}
